@@ -18,6 +18,8 @@ CONSTANTS
   WSMiner <- WSM
   WSNumber <- WSN
   WSWeight <- WSW
+  WSByte <- WSB
+  CheckAmounts = TRUE
   DeepForks = FALSE
   Profiles <- ProfQ
 VIEW view
